@@ -185,7 +185,10 @@ class PendingIf(_PendingCompoundStmt[If]):
         if self.nsp_global.configs.if_style == "short_circuit":
             if len(self.converted_orelse) > 0:
                 body_or_true = BoolOp(op=Or(), values=[body, Constant(value=1)])
-                semi_if = BoolOp(op=And(), values=[test, body_or_true])
+                # `not not`: a condition that is false must not be tested
+                # a second time by the `or` that selects the other branch
+                test_once = UnaryOp(op=Not(), operand=UnaryOp(op=Not(), operand=test))
+                semi_if = BoolOp(op=And(), values=[test_once, body_or_true])
                 if isinstance(orelse, BoolOp) and isinstance(orelse.op, Or):
                     # `a or (b or c)` is `a or b or c`: a long elif chain stays flat
                     # instead of nesting one pair of parentheses per branch
